@@ -472,4 +472,161 @@ theorem run_nodup (st : St) (ms : List Msg) (hexp : st.expected.Nodup) (R : List
       · obtain ⟨sub, hsub, rfl⟩ := List.mem_map.1 h
         exact (hf sub hsub).2.2.1
 
+/-! ### single-root duties -/
+
+/-- closed form of one message for a single-root duty -/
+def stepSingle (st : St) (s r0 : Nat) (g : Bool) : St × Out :=
+  let p := processOne st.q st.cm st.c s r0 g
+  if p.2 then
+    if reconstructOK st.q st.cm p.1 r0 then
+      ({ st with c := p.1, finished := true }, .submitted [⟨r0, sharesOf st.cm p.1 r0⟩])
+    else ({ st with c := fallback p.1 r0 }, .reconstructFailed [])
+  else ({ st with c := p.1 }, .collected)
+
+theorem single_entry (cm : List Nat) (r0 : Nat) (m : Msg) (h : validateForm cm [r0] m = none) :
+    ∃ g, m.entries = [(m.signer, r0, g)] := by
+  obtain ⟨_, hin, _, _, hlen, hperm⟩ := validateForm_none cm [r0] m h
+  match hm : m.entries, hlen with
+  | [e], _ =>
+    obtain ⟨a, b, g⟩ := e
+    rw [hm] at hin hperm
+    have ha : a = m.signer := hin (a, b, g) (by simp)
+    simp only [List.map_cons, List.map_nil] at hperm
+    have hb : b = r0 := by
+      have := hperm.mem_iff (a := b)
+      simp at this
+      exact this
+    subst ha; subst hb
+    exact ⟨g, rfl⟩
+
+theorem step_single_eq (st : St) (m : Msg) (r0 : Nat) (g : Bool) (hE : st.expected = [r0])
+    (hval : validate st m = none) (hm : m.entries = [(m.signer, r0, g)]) :
+    step st m = stepSingle st m.signer r0 g := by
+  unfold step stepSingle
+  rw [hval]
+  simp only [hm, List.map_cons, List.map_nil, processEntries]
+  by_cases hp : (processOne st.q st.cm st.c m.signer r0 g).2 = true
+  · simp only [hp, if_true, List.nil_append]
+    cases hs : st.style with
+    | first =>
+      simp
+    | loop =>
+      simp only [List.isEmpty_cons, Bool.false_eq_true, if_false, handleRoots]
+      by_cases hok : reconstructOK st.q st.cm (processOne st.q st.cm st.c m.signer r0 g).1 r0 = true
+      · simp [hok]
+      · simp [hok]
+    | loopMatch =>
+      simp only [List.isEmpty_cons, Bool.false_eq_true, if_false, handleRoots]
+      by_cases hok : reconstructOK st.q st.cm (processOne st.q st.cm st.c m.signer r0 g).1 r0 = true
+      · simp [hok, hE]
+      · simp [hok]
+  · simp [hp]
+
+theorem processOne_edge (q : Nat) (cm : List Nat) (c : Container) (s r : Nat) (g : Bool) :
+    (processOne q cm c s r g).2 = (hasQuorum q cm (processOne q cm c s r g).1 r && !hasQuorum q cm c r) := rfl
+
+/-! processOne touches one cell only -/
+theorem processOne_get_other (q : Nat) (cm : List Nat) (c : Container) (s r : Nat) (g : Bool) (r' s' : Nat)
+    (h : ¬ (r' = r ∧ s' = s)) : (processOne q cm c s r g).1.get r' s' = c.get r' s' := by
+  simp only [processOne]
+  split
+  · unfold resolveDuplicate
+    split
+    · rfl
+    · split <;> simp [setSig_get, h]
+  · unfold addSignature
+    split
+    · simp [setSig_get, h]
+    · rfl
+
+theorem processOne_get_good (q : Nat) (cm : List Nat) (c : Container) (s r : Nat) :
+    (processOne q cm c s r true).1.get r s = some true := by
+  simp only [processOne]
+  split
+  · next hs =>
+    unfold resolveDuplicate
+    split
+    · next h => exact h
+    · simp [setSig_get]
+  · next hs =>
+    unfold addSignature
+    split
+    · simp [setSig_get]
+    · next v h => rw [h] at hs; simp at hs
+
+theorem processOne_count_le (q : Nat) (cm : List Nat) (hcm : cm.Nodup) (c : Container) (s r : Nat) (g : Bool) :
+    count cm (processOne q cm c s r g).1 r ≤ count cm c r + 1 := by
+  unfold count signersOf
+  apply filter_len_le_succ cm hcm s
+  intro x _ hx
+  rw [processOne_get_other q cm c s r g r x (by simp [hx])]
+
+theorem fallback_count_lt (q : Nat) (cm : List Nat) (c : Container) (r : Nat)
+    (hq : q ≤ count cm c r) (hno : reconstructOK q cm c r = false) : count cm (fallback c r) r < count cm c r := by
+  have hng : allGood cm c r = false := by
+    simp only [reconstructOK, Bool.and_eq_false_iff, decide_eq_false_iff_not] at hno
+    rcases hno with h | h
+    · exact h
+    · exact absurd hq h
+  have : ¬ (allGood cm c r = true) := by simp [hng]
+  rw [allGood_iff] at this
+  simp only [Classical.not_forall] at this
+  obtain ⟨x, hx, hsome, hnt⟩ := this
+  have hxf : c.get r x = some false := by
+    cases hc : c.get r x with
+    | none => rw [hc] at hsome; simp at hsome
+    | some v => cases v with
+      | true => exact absurd hc hnt
+      | false => rfl
+  unfold count signersOf
+  apply filter_len_lt cm _ _ _ x hx
+  · simp [hxf]
+  · simp [fallback_get, hxf]
+  · intro y _ hy
+    rw [fallback_get] at hy
+    cases hc : c.get r y with
+    | none => rw [hc] at hy; simp at hy
+    | some v => simp
+
+/-- single-root invariant: an unfinished duty holds fewer than `q` shares of its root -/
+def SInv (st : St) (r0 : Nat) : Prop := st.finished = false → count st.cm st.c r0 < st.q
+
+theorem stepSingle_facts (st : St) (s r0 : Nat) (g : Bool) (hcm : st.cm.Nodup) (hfin : st.finished = false)
+    (hS : SInv st r0) :
+    SInv (stepSingle st s r0 g).1 r0 ∧
+    ((stepSingle st s r0 g).1.finished = false → g = true → (stepSingle st s r0 g).1.c.get r0 s = some true) ∧
+    ((stepSingle st s r0 g).1.finished = true → r0 ∈ (subsOf (stepSingle st s r0 g).2).map (·.root)) := by
+  have hlt := hS hfin
+  have hcnt := processOne_count_le st.q st.cm hcm st.c s r0 g
+  have hprev : hasQuorum st.q st.cm st.c r0 = false := by simp [hasQuorum]; omega
+  unfold stepSingle
+  by_cases hp : (processOne st.q st.cm st.c s r0 g).2 = true
+  · have hq : st.q ≤ count st.cm (processOne st.q st.cm st.c s r0 g).1 r0 := by
+      rw [processOne_edge, hprev] at hp
+      simpa [hasQuorum] using hp
+    simp only [hp, if_true]
+    by_cases hok : reconstructOK st.q st.cm (processOne st.q st.cm st.c s r0 g).1 r0 = true
+    · simp only [hok, if_true]
+      refine ⟨fun h => by simp at h, fun h => by simp at h, fun _ => by simp [subsOf]⟩
+    · have hok' : reconstructOK st.q st.cm (processOne st.q st.cm st.c s r0 g).1 r0 = false := by simpa using hok
+      simp only [hok', Bool.false_eq_true, if_false]
+      refine ⟨?_, ?_, fun h => by simp [hfin] at h⟩
+      · intro _
+        have := fallback_count_lt st.q st.cm _ r0 hq hok'
+        simp only; omega
+      · intro _ hg
+        subst hg
+        exact goodLE_fallback _ r0 r0 s (processOne_get_good st.q st.cm st.c s r0)
+  · have hp' : (processOne st.q st.cm st.c s r0 g).2 = false := by simpa using hp
+    simp only [hp', Bool.false_eq_true, if_false]
+    refine ⟨?_, ?_, fun h => by simp [hfin] at h⟩
+    · intro _
+      rw [processOne_edge, hprev] at hp'
+      simp only [Bool.not_false, Bool.and_true, hasQuorum, decide_eq_false_iff_not] at hp'
+      simp only; omega
+    · intro _ hg
+      subst hg
+      exact processOne_get_good st.q st.cm st.c s r0
+
+
 end Ssv.PartialSig
